@@ -43,7 +43,7 @@ CASE_TIMEOUT = {'quick': 180, 'thorough': 400}
 
 
 def n_cases(tier):
-    return 160 if tier == 'quick' else 2400
+    return 200 if tier == 'quick' else 12000
 
 
 def ideal(p, pmin, preq, e):
